@@ -76,6 +76,19 @@ Theorem C33_negative_index : forall a k, Inv a -> resolve_neg (a_list a) (a_idx 
 Proof. exact resolve_ok. Qed.
 Print Assumptions C33_negative_index.
 
+Theorem C33_slice : forall a off len_, Inv a -> (forall n, len_ = Some n -> 0 <= n) ->
+  slice_elems a off len_ = m_slice (abs a) off len_.
+Proof. exact slice_elems_ok. Qed.
+Print Assumptions C33_slice.
+
+(* full statement without the length hypothesis is false for the code as it is (KF-C33-2):
+     forall a off len_, Inv a -> slice_elems a off len_ = m_slice (abs a) off len_
+   bash rejects a negative length, sliceElems counts it from the end *)
+Theorem C33_slice_negative_length_refuted :
+  exists a off n, Inv a /\ n < 0 /\ slice_elems a off (Some n) <> m_slice (abs a) off (Some n).
+Proof. exact slice_negative_length_refuted. Qed.
+Print Assumptions C33_slice_negative_length_refuted.
+
 (* --- every interpreter operation: invariant, refinement of bash's rule, same error flag, no panic -------- *)
 Theorem C33_step : forall v o, InvVar v ->
   exists v' e, step v o = Ok (v', e) /\ InvVar v' /\ (abs_var v', e) = s_step (abs_var v) o.
@@ -90,6 +103,12 @@ Print Assumptions C33_histories.
 Theorem C33_history_observations : forall ops, exists v, run ops = Ok v /\ agrees v (s_run ops).
 Proof. exact history_observations. Qed.
 Print Assumptions C33_history_observations.
+
+Theorem C33_history_slices : forall ops a, run ops = Ok (VArr a) ->
+  forall off len_, (forall n, len_ = Some n -> 0 <= n) ->
+  exists m, s_run ops = SArr m /\ slice_elems a off len_ = m_slice m off len_.
+Proof. exact history_slices. Qed.
+Print Assumptions C33_history_slices.
 
 Theorem C33_no_panic : forall ops, run ops <> Panic /\ (forall c, run ops <> Err c).
 Proof. exact run_no_panic. Qed.
